@@ -2,8 +2,8 @@
 Translator module for `InitAsync.init_regular` (called from tools/py2lean.py: main()).
 
 Regenerates lean/EdzedModel/Gen/TranslatedInit.lean from the CURRENT source of
-`edzed.blocklib.sblocks2.InitAsync.init_regular`: the guard under which the routine does nothing, and the
-list of actions it performs otherwise.
+`edzed.blocklib.sblocks2.InitAsync.init_regular` -- the guard under which the routine does nothing, and the
+list of actions it performs otherwise -- and of `Block.is_initialized`, which the guard calls.
 
     def init_regular(self):
         if <guard>:
@@ -11,13 +11,23 @@ list of actions it performs otherwise.
         self._output_events = ()         -> Act.clearOutputEvents
         self.set_output(<constant>)      -> Act.setOutput <value>
 
-Guard: `and` / `or` / `not` over the atoms
-    self.is_initialized()                -> initialized
-    self.initdef is [not] block.UNDEF    -> [!] initdef.isUndef
-    self.initdef                         -> initdef.truthy          (Python truthiness of the value)
-    self.initdef is [not] None           -> comparison with Val.none
-Anything else (other statements, other atoms, a second exit): UNTRANSLATABLE -- the definition is omitted and
-the theorem `TrTie.translated_initasync_regular_is_model` (EdzedProps/C05.lean) stops compiling.
+Guard / `is_initialized` body: `and` / `or` / `not` over the atoms (X = `self.initdef` : Val, `self._output` : Val)
+    self.is_initialized()                -> isInitialized output      (translated from Block.is_initialized)
+    X is [not] UNDEF                     -> [!] X.isUndef             (identity with the singleton)
+    X                                    -> X.truthy                  (exact Python truth value on Val:
+                                                                       UNDEF, None, 0, 0.0, False, '', () are false)
+    X is [not] None                      -> [!] (X == Val.none)       (structural equality with the atom None)
+`==` / `!=`, `bool(X)`, comparisons with other constants, reversed operands, a bare method object, other
+statements, `try`, a second exit, decorators, `async def`, extra parameters: UNTRANSLATABLE -- the definition is
+omitted and the theorem `TrTie.translated_initasync_regular_is_model` (EdzedProps/C05.lean) stops compiling.
+
+Names are resolved, not matched by spelling (audit of the trusted base):
+  * `UNDEF` / `block.UNDEF` must evaluate, in the globals of the translated function, to edzed.block.UNDEF;
+  * `self.is_initialized`, `self.set_output` must resolve through the MRO of InitAsync to Block.is_initialized /
+    SBlock.set_output (an override would make the declared primitive a different function);
+  * `self._output_events` must be an attribute that SBlock.set_output iterates to send events (otherwise the
+    assignment is dead code);
+  * `self.initdef` must be assigned in SBlock.__init__ as `kwargs.pop('initdef', UNDEF)` ("UNDEF = not given").
 """
 import ast
 import inspect
@@ -36,33 +46,100 @@ def path(node):
     raise Untranslatable(f'not an access path: {ast.dump(node)[:80]}')
 
 
-def is_undef(node):
-    return isinstance(node, (ast.Name, ast.Attribute)) and path(node) in ('block.UNDEF', 'UNDEF', 'edzed.UNDEF')
+def resolves_to(node, glob, obj):
+    """does the access path evaluate to `obj` in the globals of the translated function?"""
+    if not isinstance(node, (ast.Name, ast.Attribute)):
+        return False
+    parts = path(node).split('.')
+    if parts[0] == 'self' or parts[0] not in glob:
+        return False
+    cur = glob[parts[0]]
+    for name in parts[1:]:
+        if not hasattr(cur, name):
+            return False
+        cur = getattr(cur, name)
+    return cur is obj
 
 
-def guard(node):
-    """Python condition -> Lean Bool expression over `initialized : Bool` and `initdef : Val`"""
-    if isinstance(node, ast.BoolOp):
-        op = ' || ' if isinstance(node.op, ast.Or) else ' && '
-        return '(' + op.join(guard(v) for v in node.values) + ')'
-    if isinstance(node, ast.UnaryOp) and isinstance(node.op, ast.Not):
-        return '(!' + guard(node.operand) + ')'
-    if isinstance(node, ast.Call) and not node.args and not node.keywords \
-            and path(node.func) == 'self.is_initialized':
-        return 'initialized'
-    if isinstance(node, ast.Attribute) and path(node) == 'self.initdef':
-        return 'initdef.truthy'
-    if isinstance(node, ast.Compare) and len(node.ops) == 1 and path(node.left) == 'self.initdef' \
-            and isinstance(node.ops[0], (ast.Is, ast.IsNot)):
-        right = node.comparators[0]
-        if is_undef(right):
-            base = 'initdef.isUndef'
-        elif isinstance(right, ast.Constant) and right.value is None:
-            base = '(initdef == Val.none)'
-        else:
-            raise Untranslatable(f'comparison with {ast.dump(right)[:60]}')
-        return base if isinstance(node.ops[0], ast.Is) else f'(!{base})'
-    raise Untranslatable(f'guard atom {ast.unparse(node)!r}')
+class Expr:
+    """conditions over Val-typed attributes of `self`; `vars`: access path -> Lean variable (type Val)"""
+
+    def __init__(self, fn_obj, vars_, calls):
+        from edzed import block
+        self.glob = fn_obj.__globals__
+        self.undef = block.UNDEF
+        self.vars = vars_
+        self.calls = calls          # access path of a nullary method -> Lean Bool expression
+
+    def var(self, node):
+        if isinstance(node, ast.Attribute) and path(node) in self.vars:
+            return self.vars[path(node)]
+        return None
+
+    def cond(self, node):
+        if isinstance(node, ast.BoolOp):
+            op = ' || ' if isinstance(node.op, ast.Or) else ' && '
+            return '(' + op.join(self.cond(v) for v in node.values) + ')'
+        if isinstance(node, ast.UnaryOp) and isinstance(node.op, ast.Not):
+            return '(!' + self.cond(node.operand) + ')'
+        if isinstance(node, ast.Call) and not node.args and not node.keywords \
+                and isinstance(node.func, ast.Attribute) and path(node.func) in self.calls:
+            return self.calls[path(node.func)]
+        if self.var(node) is not None:
+            return f'{self.var(node)}.truthy'
+        if isinstance(node, ast.Compare) and len(node.ops) == 1 and self.var(node.left) is not None \
+                and isinstance(node.ops[0], (ast.Is, ast.IsNot)):
+            x, right = self.var(node.left), node.comparators[0]
+            if resolves_to(right, self.glob, self.undef):
+                base = f'{x}.isUndef'
+            elif isinstance(right, ast.Constant) and right.value is None:
+                base = f'({x} == Val.none)'
+            else:
+                raise Untranslatable(f'identity test with {ast.unparse(right)!r} (not UNDEF / None)')
+            return base if isinstance(node.ops[0], ast.Is) else f'(!{base})'
+        raise Untranslatable(f'condition {ast.unparse(node)!r}')
+
+
+def plain_method(fn_obj, name):
+    """AST of a method that is a plain `def name(self)` without decorators"""
+    fn = ast.parse(textwrap.dedent(inspect.getsource(fn_obj))).body[0]
+    if not isinstance(fn, ast.FunctionDef):
+        raise Untranslatable(f'{name} is not a plain `def` ({type(fn).__name__})')
+    if fn.decorator_list:
+        raise Untranslatable(f'{name} has decorators')
+    a = fn.args
+    if [x.arg for x in a.args] != ['self'] or a.posonlyargs or a.kwonlyargs or a.vararg or a.kwarg or a.defaults:
+        raise Untranslatable(f'{name} takes more than `self`')
+    body = [s for s in fn.body
+            if not (isinstance(s, ast.Expr) and isinstance(s.value, ast.Constant) and isinstance(s.value.value, str))]
+    return body
+
+
+def check_names():
+    """the declared primitives are the functions / attributes the model assumes"""
+    from edzed import block
+    from edzed.blocklib import sblocks2
+    cls = sblocks2.InitAsync
+    if cls.is_initialized is not block.Block.is_initialized:
+        raise Untranslatable('InitAsync.is_initialized is not Block.is_initialized')
+    if cls.set_output is not block.SBlock.set_output:
+        raise Untranslatable('InitAsync.set_output is not SBlock.set_output')
+    so = ast.parse(textwrap.dedent(inspect.getsource(block.SBlock.set_output)))
+    iterated = {path(n.iter) for n in ast.walk(so)
+                if isinstance(n, ast.For) and isinstance(n.iter, ast.Attribute)}
+    if 'self._output_events' not in iterated:
+        raise Untranslatable('SBlock.set_output does not iterate self._output_events')
+    init = ast.parse(textwrap.dedent(inspect.getsource(block.SBlock.__init__)))
+    ok = False
+    for n in ast.walk(init):
+        if isinstance(n, ast.Assign) and len(n.targets) == 1 and isinstance(n.targets[0], ast.Attribute) \
+                and path(n.targets[0]) == 'self.initdef':
+            v = n.value
+            ok = (isinstance(v, ast.Call) and isinstance(v.func, ast.Attribute) and path(v.func) == 'kwargs.pop'
+                  and len(v.args) == 2 and isinstance(v.args[0], ast.Constant) and v.args[0].value == 'initdef'
+                  and resolves_to(v.args[1], block.SBlock.__init__.__globals__, block.UNDEF))
+    if not ok:
+        raise Untranslatable("SBlock.__init__ does not set self.initdef = kwargs.pop('initdef', UNDEF)")
 
 
 def value(node):
@@ -96,19 +173,31 @@ def action(stmt):
     raise Untranslatable(f'statement {ast.unparse(stmt)!r}')
 
 
+def translate_is_initialized():
+    from edzed import block
+    body = plain_method(block.Block.is_initialized, 'Block.is_initialized')
+    if len(body) != 1 or not isinstance(body[0], ast.Return) or body[0].value is None:
+        raise Untranslatable('expected a single `return <condition>`')
+    ex = Expr(block.Block.is_initialized, {'self._output': 'output'}, {})
+    return f"def isInitialized (output : Val) : Bool :=\n  {ex.cond(body[0].value)}"
+
+
 def translate():
     from edzed.blocklib import sblocks2
-    fn = ast.parse(textwrap.dedent(inspect.getsource(sblocks2.InitAsync.init_regular))).body[0]
-    body = [s for s in fn.body
-            if not (isinstance(s, ast.Expr) and isinstance(s.value, ast.Constant) and isinstance(s.value.value, str))]
+    check_names()
+    fn_obj = sblocks2.InitAsync.init_regular
+    body = plain_method(fn_obj, 'InitAsync.init_regular')
     if not body or not isinstance(body[0], ast.If) or body[0].orelse:
         raise Untranslatable('expected `if <guard>: return` as the first statement')
     first = body[0]
-    if len(first.body) != 1 or not isinstance(first.body[0], ast.Return) or first.body[0].value is not None:
+    ret = first.body[0] if len(first.body) == 1 else None
+    if not isinstance(ret, ast.Return) or not (
+            ret.value is None or (isinstance(ret.value, ast.Constant) and ret.value.value is None)):
         raise Untranslatable('the guarded branch must be a bare `return`')
     acts = [action(s) for s in body[1:]]
-    return (f"def initAsyncRegular (initialized : Bool) (initdef : Val) : List Act :=\n"
-            f"  if {guard(first.test)} then [] else [{', '.join(acts)}]")
+    ex = Expr(fn_obj, {'self.initdef': 'initdef'}, {'self.is_initialized': 'isInitialized output'})
+    return (f"def initAsyncRegular (output : Val) (initdef : Val) : List Act :=\n"
+            f"  if {ex.cond(first.test)} then [] else [{', '.join(acts)}]")
 
 
 def main_init(outfile, host):
@@ -119,8 +208,9 @@ def main_init(outfile, host):
          '  | clearOutputEvents             -- `self._output_events = ()`',
          '  | setOutput (v : Val)           -- `self.set_output(v)`',
          '  deriving DecidableEq, Repr', '']
-    t = {'name': 'initAsyncRegular', 'doc': 'InitAsync.init_regular'}
-    host.emit(L, t, lambda _t: translate(),
-              ' -- `initialized` = `self.is_initialized()`, `initdef` = `self.initdef` (UNDEF when not given)')
+    host.emit(L, {'name': 'isInitialized', 'doc': 'Block.is_initialized'}, lambda _t: translate_is_initialized(),
+              ' -- `output` = `self._output`')
+    host.emit(L, {'name': 'initAsyncRegular', 'doc': 'InitAsync.init_regular'}, lambda _t: translate(),
+              ' -- `output` = `self._output`, `initdef` = `self.initdef` (UNDEF when not given)')
     L.append('end Edzed.Gen.TrInit')
     host.write_if_changed(outfile, '\n'.join(L) + '\n')
